@@ -123,6 +123,9 @@ def ext_classes():
     out.append([(True, S(U), None), (False, S('bindname'), S(V))])
     out.append([(True, S('bindname'), S(V)), (False, S(U), None), (False, S('x-bindpw'), S(V2))])
     out.append([(False, S(U), S(V)), (True, S('1.3.6.1.4.1.10094.1.5.1'), S(V2)), (False, S(UB), None)])
+    # an id that still begins with '!' once the marker is taken off is just an unknown id (one '!' is the marker, not all of them)
+    out.append([(True, S('!bindname'), S(V))])
+    out.append([(True, S('!', U), None)])
     # a fourth field that itself contains '?'
     out.append([(False, S('bindname'), S(V, '?', V2))])
     out.append([(False, S(U, '?', UB), None)])
@@ -186,14 +189,15 @@ def substitute(c, name, text):
         if isinstance(t, tuple) and t and t[0] == 'sstr':
             return mk([text if (isinstance(p, tuple) and p[0] == 'atom' and p[1] == name) else p for p in t[1]])
         return t
-    def lab(l):
-        return l + '[%s:=%s]' % (name, text)
-    d = {'path': (lab(c['path'][0]), sub(c['path'][1]))}
-    d['attrs'] = None if c['attrs'] is None else (lab(c['attrs'][0]), [sub(x) for x in c['attrs'][1]])
-    d['scope'] = None if c['scope'] is None else (lab(c['scope'][0]), sub(c['scope'][1]))
-    d['filter'] = None if c['filter'] is None else (lab(c['filter'][0]), sub(c['filter'][1]))
-    d['ext'] = None if c['ext'] is None else (lab(c['ext'][0]), [(cr, sub(i), None if v is None else sub(v)) for cr, i, v in c['ext'][1]])
-    return d
+    def lab(l, changed):
+        return l + '[%s:=%s]' % (name, text) if changed else l
+    def fld(x, f):
+        if x is None:
+            return None
+        y = f(x[1])
+        return (lab(x[0], y != x[1]), y)
+    return {'path': fld(c['path'], sub), 'attrs': fld(c['attrs'], lambda xs: [sub(x) for x in xs]), 'scope': fld(c['scope'], sub), 'filter': fld(c['filter'], sub),
+            'ext': fld(c['ext'], lambda its: [(cr, sub(i), None if v is None else sub(v)) for cr, i, v in its])}
 
 def mentions(c, name):
     return any(isinstance(p, tuple) and p[0] == 'atom' and p[1] == name for t in absx.leaves(('x', c['path'][1], query_of(c)), lambda z: z[0] == 'sstr') for p in t[1])
@@ -214,6 +218,16 @@ class Judge:
     def __init__(self):
         self.groups = {}       # (rule, instance) -> [ok count, bad count, first bad detail]
         self.npaths = 0
+        self.q4_pending = []
+        self.ext_failed = False
+
+    def finish(self):
+        for r, einst, f2inst, msg in self.q4_pending:
+            if self.ext_failed:
+                self.note(r, einst, False, msg)
+            else:
+                self.note('F2.query-split', f2inst, False, msg + ' - the fourth field is everything after the third "?", further "?" included')
+        self.q4_pending = []
 
     def note(self, rule, inst, ok, detail=''):
         g = self.groups.setdefault((rule, inst), [0, 0, ''])
@@ -326,14 +340,20 @@ class Judge:
             oke, why = self.ext_ok(exp, fl.get('extensions', ('unk',)), heap_of(o))
             wrong = [n for n, x in (('base', okb), ('attributes', oka), ('scope', oks), ('filter', okf), ('extensions', oke)) if not x]
             # the split itself: a query with k fields fills exactly those k components (several at once off: the split is off)
-            self.note('F2.query-split', inst['F2.query-split'], not (len(wrong) >= 2 or (q4 and wrong)),
+            self.note('F2.query-split', inst['F2.query-split'], len(wrong) < 2,
                       'on %s the components %s deviate: the query is not split into at most four fields at its first three "?"' % (lab, wrong))
             if oke:
                 for r in erules:
                     self.note(r, einst, True)
             else:
                 r = self.ext_rule(c, exp, why, erules)
-                self.note(r, einst, False, 'on %s the extension set is %s' % (lab, why))
+                msg = 'on %s the extension set is %s' % (lab, why)
+                if q4:
+                    # a deviation on a fourth field that contains '?': the split's fault unless the same clause also fails without the '?'
+                    self.q4_pending.append((r, einst, inst['F2.query-split'], msg))
+                else:
+                    self.ext_failed = True
+                    self.note(r, einst, False, msg)
 
     def ext_ok(self, exp, t, heap):
         if t[0] != 'hset' or t not in heap:
@@ -344,6 +364,7 @@ class Judge:
             return False, 'unreadable: %s' % short(got)
         gk = sorted(g[1].split('::')[-1] for g in got)
         wk = sorted(set(x['kind'] for x in want))
+        self._kinds = (gk, wk)
         if gk != wk:
             return False, 'kinds %s, expected %s' % (gk, wk)
         for g in got:
@@ -360,12 +381,18 @@ class Judge:
         if why.startswith('value of') or why.startswith('value for'):
             return 'F6.split-id-value' if 'F6.split-id-value' in erules else 'F6.extension-value-decoded'
         if why.startswith('kinds'):
-            for r in ('F6.no-extensions', 'F6.case-insensitive-names', 'F6.criticality-marker'):
-                if r in erules:
-                    return r
-            if 'Unknown' in why and 'F6.unknown-noncritical-dropped' in erules:
+            got, want = self._kinds
+            extra, missing = [k for k in got if k not in want], [k for k in want if k not in got]
+            if 'Unknown' in extra:
                 return 'F6.unknown-noncritical-dropped'
-            return 'F6.recognition-table' if 'F6.recognition-table' in erules else (erules[0] if erules else 'F6.recognition-table')
+            if extra:
+                return 'F6.no-extensions' if 'F6.no-extensions' in erules else 'F6.recognition-table'
+            items = [x for x in exp['exts'] if x['kind'] in missing]
+            if items and all(x['id'][0] == 'lit' and x['id'][1] not in OIDS and x['id'][1] != x['id'][1].lower() for x in items):
+                return 'F6.case-insensitive-names'
+            if items and all(x['crit'] for x in items):
+                return 'F6.criticality-marker'
+            return 'F6.recognition-table'
         return 'F6.split-on-comma'
 
     def judge_err(self, c, exp, err, dec, mandatory, ext_srcs, optional, unknown_crit, inst, einst, lab):
@@ -381,8 +408,9 @@ class Judge:
                 elif x in optional:
                     self.note('F6.extension-value-decoded', einst, True)
                 else:
-                    rule = 'F6.extension-value-decoded' if c['ext'] is not None and c['ext'][1] else 'F1.decode-failure-is-DecodingUTF8'
-                    self.note(rule, einst if rule.startswith('F6') else 'other text', False,
+                    names = {p[1] for t in absx.leaves(('x', x), lambda z: z[0] == 'sstr') for p in t[1] if isinstance(p, tuple)}
+                    rule = 'F1.base' if 'dn' in names else 'F5.filter' if 'filter' in names else 'F6.extension-value-decoded' if c['ext'] is not None and c['ext'][1] else 'F1.decode-failure-is-DecodingUTF8'
+                    self.note(rule, inst.get(rule, einst if rule.startswith('F6') else 'other text'), False,
                               'on %s percent-decoding is applied to %s, which is not the base, the filter or an extension value' % (lab, short(x)))
         elif kind == 'LdapError::InvalidScopeString':
             ok = exp['scope'][0] == 'invalid' and len(err[2]) == 1 and err[2][0] == exp['scope'][1]
@@ -441,14 +469,15 @@ def run(ctx):
             hosts = [c for c in cls if mentions(c, name)][:40]
             for c in hosts:
                 evaluate(substitute(c, name, L)); extra += 1
+    J.finish()
     ctx.add('F.partition-closed', 'literals compared with atoms', loc(root), len(done) <= 24,
             'the function compares its input with %d literals outside the partition (%s); each was evaluated as a class of its own (%d classes)' % (len(done), sorted(done)[:6], extra))
     for (rule, inst), (nok, nbad, detail) in sorted(J.groups.items()):
         ctx.add(rule, inst, loc(root), nbad == 0, detail if nbad else '%d paths' % nok)
-    ctx.floor('F', 'classes of the input partition evaluated', n_cls, 1038)
-    ctx.floor('F', 'paths judged (at least one per class)', J.npaths, 1038)
-    for r in ('F1.base', 'F1.decode-failure-is-DecodingUTF8', 'F2.query-split', 'F3.attributes', 'F4.scope', 'F4.invalid-scope-is-error', 'F5.filter') + F6_ALL:
-        ctx.floor(r, 'judgements', sum(g[0] + g[1] for (rl, _i), g in J.groups.items() if rl == r), 1)
+    ctx.floor('F', 'classes of the input partition evaluated', n_cls, 1042)
+    ctx.floor('F', 'paths judged (at least one per class)', J.npaths, 1042)
+    for r in F6_ALL:
+        ctx.floor(r, 'classes of the partition that exercise the clause', sum(1 for c in cls if r in J.ext_rules(c)), 1)
 
     # ---- a workspace comparison helper the function calls (found by role: called with a name literal and the extension id)
     for cal, uses in sorted(dom.predicates.items()):
